@@ -148,6 +148,10 @@ class Strikethrough(SpanToken):
     pattern = re.compile(r"(?<!\\)(?:\\\\)*~~(.+?)~~", re.DOTALL)
 
 
+# destination types of links and images that refer to a link reference definition
+_reference_dest_types = ("full", "collapsed", "shortcut")
+
+
 class Image(SpanToken):
     """
     Image token. ("![alt](src "title")")
@@ -162,9 +166,13 @@ class Image(SpanToken):
     repr_attributes = ("src", "title")
 
     def __init__(self, match):
-        self.src = EscapeSequence.strip(match.group(2).strip())
-        self.title = EscapeSequence.strip(match.group(3))
         self.dest_type = getattr(match, "dest_type", None)
+        if self.dest_type in _reference_dest_types:
+            # taken from a link reference definition: escapes and entities are resolved already
+            self.src, self.title = match.group(2), match.group(3)
+        else:
+            self.src = EscapeSequence.strip(match.group(2).strip())
+            self.title = EscapeSequence.strip(match.group(3))
         self.label = getattr(match, "label", None)
         self.title_delimiter = getattr(match, "title_delimiter", None)
 
@@ -183,9 +191,13 @@ class Link(SpanToken):
     repr_attributes = ("target", "title")
 
     def __init__(self, match):
-        self.target = EscapeSequence.strip(match.group(2).strip())
-        self.title = EscapeSequence.strip(match.group(3))
         self.dest_type = getattr(match, "dest_type", None)
+        if self.dest_type in _reference_dest_types:
+            # taken from a link reference definition: escapes and entities are resolved already
+            self.target, self.title = match.group(2), match.group(3)
+        else:
+            self.target = EscapeSequence.strip(match.group(2).strip())
+            self.title = EscapeSequence.strip(match.group(3))
         self.label = getattr(match, "label", None)
         self.title_delimiter = getattr(match, "title_delimiter", None)
 
